@@ -54,7 +54,9 @@ type c03Stats struct {
 	last map[string][]*big.Int
 }
 
-func newC03Stats() *c03Stats { return &c03Stats{acc: map[string]*c03Acc{}, last: map[string][]*big.Int{}} }
+func newC03Stats() *c03Stats {
+	return &c03Stats{acc: map[string]*c03Acc{}, last: map[string][]*big.Int{}}
+}
 
 // c03Centered: centred integer coefficients of the polynomial with canonical rows `rows` mod qs.
 func c03Centered(qs []uint64, rows [][]uint64) []*big.Int {
@@ -156,7 +158,7 @@ func c03ProbeEncryption(c *Ctx, s *c03Set, v *c03Variant, api string, deg, level
 	path := c03Path(s, v.key)
 	isNTT, isMont := ct.IsNTT, ct.IsMontgomery
 	args := fmt.Sprintf("%s key=%s how=%s api=%s deg=%d level=%d ntt=%d mont=%d reused=%d seed=%d", s.hdr, path, v.how, api, deg, level,
-		b2i(isNTT), b2i(isMont), b2i(junk), c.Seed)
+		c03B2i(isNTT), c03B2i(isMont), c03B2i(junk), c.Seed)
 
 	// a degree-0 target of an sk-encryptor is a compressed ciphertext: the holder of the PRNG expands c1
 	ctDec := ct
@@ -206,8 +208,12 @@ func c03ProbeEncryption(c *Ctx, s *c03Set, v *c03Variant, api string, deg, level
 	}
 	c.Probe("dec_enc_noise_upper", args, key, detail)
 
-	// lower side: only meaningful where the upper side holds (otherwise the noise is garbage anyway)
-	if ok {
+	// lower side: only meaningful where the upper side holds (otherwise the noise is garbage anyway), and
+	// where the declared distribution itself makes an all-zero or repeated error vector negligible
+	// (with N = 16 and Xe = Ternary{P: 1/3} an all-zero e has probability (2/3)^16 ≈ 1.5e-3).
+	if ok && path == "sk" && !c03DegeneracyNegligible(s) {
+		c.Count("noise_nonzero:skipped(declared Xe degenerate at this N)")
+	} else if ok {
 		detail = ""
 		if inf.Sign() == 0 {
 			detail = "fresh noise is identically zero"
@@ -246,8 +252,8 @@ func c03ProbeEncryption(c *Ctx, s *c03Set, v *c03Variant, api string, deg, level
 		detail = ""
 		if c03MetaStr(ptOut.MetaData) != c03MetaStr(ptIn.MetaData) || ptOut.IsNTT != ptIn.IsNTT || ptOut.IsMontgomery != ptIn.IsMontgomery ||
 			!ptOut.MetaData.Equal(ptIn.MetaData) {
-			detail = fmt.Sprintf("in=%s,%d,%d out=%s,%d,%d", c03MetaStr(ptIn.MetaData), b2i(ptIn.IsNTT), b2i(ptIn.IsMontgomery),
-				c03MetaStr(ptOut.MetaData), b2i(ptOut.IsNTT), b2i(ptOut.IsMontgomery))
+			detail = fmt.Sprintf("in=%s,%d,%d out=%s,%d,%d", c03MetaStr(ptIn.MetaData), c03B2i(ptIn.IsNTT), c03B2i(ptIn.IsMontgomery),
+				c03MetaStr(ptOut.MetaData), c03B2i(ptOut.IsNTT), c03B2i(ptOut.IsMontgomery))
 		}
 		c.Probe("metadata_eq", args, "C03-metadata", detail)
 	}
@@ -447,4 +453,22 @@ func c03ProbeDecryptDeg7(c *Ctx, s *c03Set, ct *rlwe.Ciphertext) {
 	}
 	c.Probe("decrypt_degree7", fmt.Sprintf("%s deg=%d lc=%d seed=%d", s.hdr, len(ct.Value)-1, lc, c.Seed), "C03-decrypt-degree7-noreduce", detail)
 	c.Count("dec:deg7-nonNTT")
+}
+
+// c03DegeneracyNegligible: under the DECLARED Xe, are P(e = 0) and P(e = e') below 2^-30 ?
+func c03DegeneracyNegligible(s *c03Set) bool {
+	var zero, coll float64
+	switch x := s.params.Xe().(type) {
+	case ring.Ternary:
+		if x.H != 0 {
+			return true // exactly H non-zero coefficients; positions and signs collide with prob. ≤ 2^-H/C(N,H)
+		}
+		zero = 1 - x.P
+		coll = (1-x.P)*(1-x.P) + x.P*x.P/2
+	case ring.DiscreteGaussian:
+		zero = math.Min(1, 0.4/x.Sigma)
+		coll = math.Min(1, 0.2821/x.Sigma)
+	}
+	lim := math.Exp2(-30)
+	return math.Pow(zero, float64(s.N)) < lim && math.Pow(coll, float64(s.N)) < lim
 }
